@@ -376,6 +376,32 @@ def check_ops(run, r, g, tier):
             add('case_incr %s %d %s' % (g_tm(body2), 2, g_opt(res, g_tm)), 'incr_boundvars', (repr(body2), 2), res, err)
             x2 = g.var(U, svar_p=0.0)
             b3 = Comb(Comb(conj, Comb(Const('equals', TFun(U, U, BoolType)), x2)(Bound(0)) if False else pb), inner)
+        # ---- a redex under a binder whose argument is open AND has a binder of its own: the argument is lifted
+        #      when it crosses the inner binder of the function body (loose variables move, its own bound one must not)
+        R2 = g.rand_type(fun_ok=False)
+        own = None
+        for _ in range(6):
+            cand = g.term(R2, r.choice([1, 2]), (U, U))     # context: its own bound variable, then the outer one
+            if cand.is_open():
+                own = cand
+                break
+        if own is not None:
+            arg_open = Abs('c', U, own)
+            fbody = Abs('b', U, Comb(Bound(1), Bound(r.choice([0, 2]))))
+            if r.random() < 0.3:
+                fbody = Abs('b', U, Abs('d', U, Comb(Bound(2), Bound(r.choice([0, 1, 3])))))
+            red2 = Abs('a', U, Comb(Abs('f', TFun(U, R2), fbody), arg_open))
+            for inp in (red2, share(red2)):
+                res, err = attempt(lambda: inp.beta_norm())
+                add('case_beta_norm %s %s' % (g_tm(inp), g_opt(res, g_tm)), 'beta_norm', (repr(inp),), res, err)
+            res, err = attempt(lambda: red2.beta_norm())
+            if res is not None and typ_of(red2) is not None:
+                if typ_of(res) != typ_of(red2):
+                    run.violation('property', 'beta_norm does not preserve the type (open argument with a binder of its own)',
+                                  dict(term=repr(red2), result=repr(res)), key='C03:beta_norm-typing')
+                else:
+                    eqs.append(('beta_norm', red2, res))
+            run.stat('open-arg-own-binder')
         # ---- incr_boundvars
         inc = r.choice([0, 1, 2, 3])
         for inp in (open_t, share(open_t)):
